@@ -566,6 +566,12 @@ acquire_stop(struct AcquireRuntime* self_)
         // already been released, flush it. This takes at most 2 iterations.
         if (video->monitor.reader.id) {
             size_t nbytes;
+            // The client may still hold a region of the acquisition that just
+            // ended (acquire_map_read() without acquire_unmap_read()): release
+            // it first. Mapping again on a mapped reader would leave the
+            // reader in an error state for good.
+            channel_read_unmap(
+              &video->sink.in, &video->monitor.reader, (size_t)-1);
             do {
                 struct slice slice =
                   channel_read_map(&video->sink.in, &video->monitor.reader);
